@@ -352,6 +352,9 @@ func cmdCheck(args []string) int {
 				return
 			}
 			to := eng.timeoutS
+			if j.v.con != nil && j.v.con.TimeoutS > to {
+				to = j.v.con.TimeoutS
+			}
 			if j.o.Expect == "sat" {
 				to = 3
 			}
